@@ -70,6 +70,14 @@ static int ih_validate_stub (region_type_t *r)
 #endif
 #include "spec_image.h"
 
+/* stop after a failed accounting check (the failure is already recorded): nothing can be read
+ * safely any more.  Not VH_END: the canary must stay a single, reachable obligation. */
+#ifdef VH_CBMC
+#define IH_STOP() __CPROVER_assume (0)
+#else
+#define IH_STOP() VH_END ()
+#endif
+
 #define IH_MAXFP    6      /* filter parameter words in a built image */
 #define IH_MAXSTOPS 3      /* gradient stops in a built image */
 #define IH_MAXBOX   2      /* rectangles in a built heap clip region */
@@ -103,6 +111,7 @@ typedef struct
     vh_i32 aox, aoy;
     vh_u8  ca;
     vh_u8  has_destroy;
+    vh_u8  no_hook;              /* property_changed == NULL (as for solid fills); non-gradient types only */
     vh_u32 flags, efc;
     /* BITS */
     vh_u32 format;
@@ -132,6 +141,7 @@ typedef struct
     IH_IN_ARRAY (vh_i32, in_##p##_cb, 4 * IH_MAXBOX);                                       \
     VH_IN (vh_i32, in_##p##_aox); VH_IN (vh_i32, in_##p##_aoy); VH_IN (vh_u8, in_##p##_ca); \
     VH_IN (vh_u8, in_##p##_has_destroy); VH_IN (vh_u32, in_##p##_flags); VH_IN (vh_u32, in_##p##_efc); \
+    VH_IN (vh_u8, in_##p##_no_hook);                                                        \
     VH_IN (vh_u32, in_##p##_format); VH_IN (vh_i32, in_##p##_w); VH_IN (vh_i32, in_##p##_h); \
     VH_IN (vh_u8, in_##p##_has_free_me); VH_IN (vh_u8, in_##p##_has_indexed);               \
     VH_IN (vh_u8, in_##p##_has_read); VH_IN (vh_u8, in_##p##_has_write);                    \
@@ -152,6 +162,7 @@ typedef struct
         for (k_ = 0; k_ < 4 * IH_MAXBOX; k_++) p.cb[k_] = in_##p##_cb[k_];                  \
         p.aox = in_##p##_aox; p.aoy = in_##p##_aoy; p.ca = in_##p##_ca;                     \
         p.has_destroy = in_##p##_has_destroy; p.flags = in_##p##_flags; p.efc = in_##p##_efc; \
+        p.no_hook = in_##p##_no_hook;                                                       \
         p.format = in_##p##_format; p.w = in_##p##_w; p.h = in_##p##_h;                     \
         p.has_free_me = in_##p##_has_free_me; p.has_indexed = in_##p##_has_indexed;         \
         p.has_read = in_##p##_has_read; p.has_write = in_##p##_has_write;                   \
@@ -248,7 +259,8 @@ static pixman_image_t *ih_build (const ih_in *s, ih_own *o, int second_cb)
     c->component_alpha = s->ca;
     c->flags = s->flags;
     c->extended_format_code = (pixman_format_code_t) s->efc;
-    c->property_changed = ih_is_gradient_type (s->type) ? gradient_property_changed : ih_property_changed;
+    c->property_changed = ih_is_gradient_type (s->type) ? gradient_property_changed
+                          : s->no_hook ? (property_changed_func_t) 0 : ih_property_changed;
     if (s->has_destroy)
     {
         c->destroy_func = second_cb ? ih_destroy_cb2 : ih_destroy_cb;
@@ -341,7 +353,12 @@ static pixman_image_t *ih_build (const ih_in *s, ih_own *o, int second_cb)
         im->gradient.n_stops = s->nstops;
         o->stops_block = st; o->n_blocks++;
         if (s->type == RADIAL)
+        {
             im->radial.a = s->radial_a / 4.0;
+            /* the circles alias bits.bits / bits.free_me of the BITS member: arbitrary, not zero */
+            im->radial.c1.x = s->stop_x[0]; im->radial.c1.y = s->stop_x[1]; im->radial.c1.radius = s->stop_x[2];
+            im->radial.c2.x = s->stop_x[2]; im->radial.c2.y = s->stop_x[0]; im->radial.c2.radius = s->stop_x[1];
+        }
     }
     return im;
 }
